@@ -269,14 +269,21 @@ func (fs *ReaderFS) writeFile(path string, info hackpadfs.FileInfo, initialBuf *
 		return fserrors.WithMessage(err, "write: copying file")
 	}
 
-	if r == nil {
-		// a nil reader signals we already did a read of N bytes and hit EOF,
-		// so the above copy is sufficient, return now
-		return nil
+	written := int64(n)
+	if r != nil {
+		// a nil reader signals we already did a read of N bytes and hit EOF, so the above copy is sufficient.
+		// otherwise copy the remainder
+		copied, err := io.CopyBuffer(fWriter, r, copyBuf.Data)
+		if err != nil {
+			return fserrors.WithMessage(err, "copybuf: copying file")
+		}
+		written += copied
 	}
-
-	_, err = io.CopyBuffer(fWriter, r, copyBuf.Data)
-	return fserrors.WithMessage(err, "copybuf: copying file")
+	if written != info.Size() {
+		// the archive ended in the middle of this file: do not announce a prefix as the complete file
+		return fserrors.WithMessage(io.ErrUnexpectedEOF, "copying file")
+	}
+	return nil
 }
 
 type fullReader struct {
